@@ -386,7 +386,7 @@ fn mixed_sequences(rep: &mut Report, rng: &mut Rng, n_seq: u64) {
                     }
                     // the same grid over a *structured* prediction (the residual is added onto what is there):
                     // rows or columns of zeros next to textured ones, letterbox tops, random bytes
-                    let kind = rng.below(5);
+                    let kind = rng.below(8);
                     let mut pre = vec![0u8; spl * rows];
                     rng.fill(&mut pre);
                     for (i, v) in pre.iter_mut().enumerate() {
@@ -398,6 +398,19 @@ fn mixed_sequences(rep: &mut Report, rng: &mut Rng, n_seq: u64) {
                             3 if y % 8 == 0 || x % 8 == 0 => *v = if (x + y) % 16 < 8 { 0 } else { 255 },
                             4 if y % 8 < 4 => *v = 0,
                             _ => {}
+                        }
+                    }
+                    // kinds 5-7: structure inside each line - samples equal in pairs (pixel-doubled content), every
+                    // line of a block starting with the same value, a vertical edge at an even column
+                    for y in 0..rows {
+                        for x in 0..spl {
+                            let i = y * spl + x;
+                            match kind {
+                                5 => pre[i] = pre[y * spl + (x & !1)],
+                                6 if x % 8 == 0 => pre[i] = pre[(y & !7) * spl + x],
+                                7 => pre[i] = if x % 8 < 2 * (1 + (y / 8 + x / 8) % 3) { 40 } else { 200 },
+                                _ => {}
+                            }
                         }
                     }
                     let mut plane = pre.clone();
